@@ -310,7 +310,7 @@ def real_schedule_cases(ctx):
     nunavut.jinja.CodeGenerator._generate_with_line_buffer = classmethod(tee)
     try:
         for lang in ["c", "py"] if ctx.quick else ["c", "cpp", "py", "html"]:
-            lctx = LanguageContextBuilder().set_target_language(lang).create()
+            lctx = LanguageContextBuilder(include_experimental_languages=True).set_target_language(lang).create()
             out = os.path.join(d, "out_" + lang)
             ns = nunavut.build_namespace_tree(types, os.path.join(d, "dsdl", "cov"), out, lctx)
             # explicit processors: trim + limit 2 (what nnvg --pp-trim-trailing-whitespace --pp-max-emptylines 2 installs)
